@@ -191,6 +191,9 @@ class _Quadrature(torch.autograd.Function):
                 # are still the same objects as the objects outside
                 with torch.enable_grad():
                     f = fcn(x, *params)
+                if not f.requires_grad:
+                    # no tensor reaches the integrand at all
+                    return tuple(torch.zeros_like(p) for p in tensor_params)
                 dfdts = torch.autograd.grad(f, tensor_params,
                                             grad_outputs=grad_ys,
                                             retain_graph=True,
